@@ -76,6 +76,12 @@ Proof.
     destruct (forallb _ fs); simpl; auto.
     destruct (wrap_fields MTyped r fs) as [fs'|] eqn:Hw; simpl; auto.
     exists fs'. split; [reflexivity|]. eapply H; eauto.
+  - (* TDict *)
+    destruct v; simpl; auto. inversion H1; subst.
+    eexists. split; [reflexivity|].
+    apply Forall_forall. intros ft Hin. apply in_map_iff in Hin. destruct Hin as [ft0 [<- Hin]]. simpl.
+    apply wrap_TT; [intros; apply H; assumption|].
+    rewrite Forall_forall in H3. apply (H3 ft0 Hin).
   - (* TEnum *)
     destruct v; simpl; auto.
     destruct (existsb (String.eqb t) tags) eqn:Hex; simpl; auto.
@@ -90,6 +96,42 @@ Proof.
     + apply wrap_TT; [intros; apply H; assumption|].
       eapply (assoc_Forall pure_thunk); eassumption.
     + eapply H0; eauto.
+Qed.
+
+(* ------------------------------------------------------------------------------ subtyping *)
+
+Lemma ok_out_mono : forall (P Q : cand) o, (forall v, P v -> Q v) -> ok_out P o -> ok_out Q o.
+Proof. intros P Q [v|e|] H; simpl; auto. Qed.
+
+Lemma TT_mono : forall (P Q : cand) t, (forall v, P v -> Q v) -> TT P t -> TT Q t.
+Proof. intros P Q t H Ht n. eapply ok_out_mono; [eassumption|apply Ht]. Qed.
+
+Lemma sub_sound_mut :
+  (forall A B, sub A B -> forall d v, V A d v -> V B d v) /\
+  (forall r U, rows_sub_all r U -> forall d fs, Vrows r d fs ->
+     Forall (fun ft => TT (V U d) (snd ft)) fs) /\
+  (forall r s, rows_sub r s -> forall d fs, Vrows r d fs -> Vrows s d fs).
+Proof.
+  apply sub_ind3; intros.
+  - assumption.
+  - simpl in *. destruct H1 as [fs [-> Hr]]. exists fs. split; [reflexivity|]. apply H0. assumption.
+  - simpl in *. destruct H1 as [ts [-> HF]]. exists ts. split; [reflexivity|].
+    rewrite Forall_forall in *. intros t Hin. specialize (HF t Hin).
+    eapply TT_mono; [|exact HF]. intros v'. apply H0.
+  - simpl in *. destruct H1 as [fs [-> HF]]. exists fs. split; [reflexivity|].
+    rewrite Forall_forall in *. intros t Hin. specialize (HF t Hin).
+    eapply TT_mono; [|exact HF]. intros v'. apply H0.
+  - simpl in *. destruct H1 as [fs [-> Hr]]. exists fs. split; [reflexivity|]. apply H0. assumption.
+  - destruct fs as [|[? ?] ?]; simpl in *; [constructor|contradiction].
+  - destruct fs as [|[g t] fs']; simpl in *; [contradiction|]. destruct H3 as [<- [Ht Hr]].
+    constructor.
+    + simpl. eapply TT_mono; [|eassumption]. intros v'. apply H0.
+    + apply H2. assumption.
+  - assumption.
+  - destruct fs as [|[g t] fs']; simpl in *; [contradiction|]. destruct H3 as [<- [Ht Hr]].
+    split; [reflexivity|]. split.
+    + eapply TT_mono; [|eassumption]. intros v'. apply H0.
+    + apply H2. assumption.
 Qed.
 
 (* ------------------------------------------------------------------- the fundamental lemma *)
@@ -193,6 +235,9 @@ Section Fundamental.
       pose proof (H0 d rho H1 n) as He.
       destruct (eval n MTyped rho e) as [v|e0|]; simpl in *; auto.
       apply V_subst0. apply He.
+    - (* Sub *)
+      pose proof (H0 d rho H2 n) as He.
+      eapply ok_out_mono; [|eassumption]. intros v. apply (proj1 sub_sound_mut _ _ H1).
     - (* types nil *) constructor.
     - (* types cons *)
       simpl. constructor.
@@ -281,6 +326,15 @@ Proof.
   - (* TRec *)
     destruct H1 as [fs [-> Hr]]. destruct n as [|n]; [exact I|]. simpl.
     pose proof (H d H0 fs Hr n) as Hl.
+    destruct (force_fields (force n) (eval_thunk n) fs); simpl in *; auto.
+  - (* TDict *)
+    destruct H1 as [fs [-> HF]]. destruct n as [|n]; [exact I|]. simpl.
+    assert (Hl : safe_outcome (force_fields (force n) (eval_thunk n) fs)).
+    { induction fs as [|[g t0] fs' IHf]; simpl; [exact I|].
+      inversion HF; subst. simpl in H3. specialize (H3 n).
+      destruct (eval_thunk n t0) as [v|e|]; simpl in *; auto.
+      pose proof (H d H0 v H3 n) as Hf. destruct (force n v); simpl in *; auto.
+      specialize (IHf H4). destruct (force_fields (force n) (eval_thunk n) fs'); simpl in *; auto. }
     destruct (force_fields (force n) (eval_thunk n) fs); simpl in *; auto.
   - (* TEnum *)
     destruct H0 as [t [-> _]]. destruct n; simpl; exact I.
